@@ -434,6 +434,9 @@ func (s *Store[K, V]) setShardWithoutLock(shard *Shard[K, V], hash uint64, key K
 
 	if ok {
 		exist.value = value
+		if !nvmClean {
+			exist.dirty.Store(true)
+		}
 		old := exist.weight.Swap(cost)
 		result.oldCost = old
 		return result
@@ -470,6 +473,7 @@ func (s *Store[K, V]) setShardWithoutLock(shard *Shard[K, V], hash uint64, key K
 	entry.expire.Store(expire)
 	entry.weight.Store(cost)
 	entry.policyWeight = 0
+	entry.dirty.Store(!nvmClean)
 	shard.set(entry.key, entry)
 	result.entry = entry
 	result.exists = false
@@ -621,7 +625,7 @@ func (s *Store[K, V]) removeEntry(entry *Entry[K, V], reason RemoveReason) {
 
 	switch reason {
 	case EVICTED, EXPIRED:
-		if reason == EVICTED && !entry.flag.IsFromNVM() && s.secondaryCache != nil {
+		if reason == EVICTED && s.secondaryCache != nil && (!entry.flag.IsFromNVM() || entry.dirty.Load()) {
 			var rn float32 = 1
 			if s.probability < 1 {
 				rn = s.rg.Float32()
@@ -639,15 +643,18 @@ func (s *Store[K, V]) removeEntry(entry *Entry[K, V], reason RemoveReason) {
 				}
 			}
 		}
-		if s.secondaryCache != nil && !entry.flag.IsFromNVM() {
+		if !locked {
+			shard.mu.Lock()
+		}
+		// under the shard mutex, so that an overwrite cannot slip in between the
+		// test and the removal: the clean mark of the policy is only cleared when
+		// the update event is applied, the dirty mark is set by the writer itself
+		if s.secondaryCache != nil && (!entry.flag.IsFromNVM() || entry.dirty.Load()) {
 			// the entry is newer than whatever the secondary cache holds for its key
 			// and is not going to be written there: the older copy must not outlive it
 			if err := s.secondaryCache.Delete(entry.key); err != nil {
 				s.secondaryCache.HandleAsyncError(err)
 			}
-		}
-		if !locked {
-			shard.mu.Lock()
 		}
 		deleted := shard.delete(entry)
 		shard.mu.Unlock()
